@@ -145,6 +145,11 @@ def run_job(spec):
                 _t0 = time.time()
                 r, info = solve.prove_isolated(cons, gterm, spec.get('query_timeout_s', 20), ctx.inputs, ctx.regions,
                                                ctx.hints, key=(spec['harness'], gname.split('[')[0]))
+                if r == 'unknown':
+                    # rare under load: one retry with a larger budget before calling it inconclusive
+                    r, info = solve.prove_isolated(cons, gterm, 4 * spec.get('query_timeout_s', 20), ctx.inputs,
+                                                   ctx.regions, ctx.hints, key=None)
+                    out['retried'] = out.get('retried', 0) + 1
                 rec = None
                 if r == 'sat':
                     rec = dict(prop=spec['prop'], harness=spec['harness'], params=spec['params'], goal=gname,
